@@ -450,6 +450,9 @@ def run(tier, seed):
         for _ in range(m):
             hid += 1
             hs.append(lift_history(ck.rng, hid, maxlen, ck.rng.choice(PARAMS)))
+        if done == 0:       # fixed regression histories (replays of earlier findings; ids 99xxxx)
+            rd = os.path.join(vlib.ROOT, "tools", "regress")
+            hs += [json.load(open(os.path.join(rd, f))) for f in sorted(os.listdir(rd)) if f.startswith("c12_")]
         batches.append(("lift" + str(done // chunk_lift), hs))
         done += m
     n4 = 60 if tier == "quick" else 600
